@@ -135,6 +135,31 @@ class Interp:
         except Exception as ex:
             raise AnalysisError(f"tabulation: cannot iterate {unparse(e)[:80]!r}: {type(ex).__name__}: {ex}")
 
+    def _iterate(self, e: ast.AST) -> Any:
+        """The values of the iterable of a for statement, taken one by one as the loop runs (the body may change the
+        iterable; the groups of itertools.groupby are only valid until the next one is asked for)."""
+        _END = object()
+        try:
+            it = iter(self.ev(e))
+        except (_Continue, _Break, _Raised, _Return, AnalysisError):
+            raise
+        except self.behaviours as ex:
+            raise _Raised(type(ex).__name__)
+        except Exception as ex:
+            raise AnalysisError(f"tabulation: cannot iterate {unparse(e)[:80]!r}: {type(ex).__name__}: {ex}")
+        while True:
+            try:
+                v = next(it, _END)
+            except (_Continue, _Break, _Raised, _Return, AnalysisError):
+                raise
+            except self.behaviours as ex:
+                raise _Raised(type(ex).__name__)
+            except Exception as ex:
+                raise AnalysisError(f"tabulation: cannot iterate {unparse(e)[:80]!r}: {type(ex).__name__}: {ex}")
+            if v is _END:
+                return
+            yield v
+
     def _make_function(self, fd: ast.FunctionDef) -> Any:
         outer = self
         params = [a.arg for a in fd.args.posonlyargs + fd.args.args]
@@ -276,8 +301,11 @@ class Interp:
             if isinstance(s, ast.If):
                 self.run(s.body if self.ev(s.test) else s.orelse)
             elif isinstance(s, ast.For):
-                for v in self._materialise(s.iter):
+                for v in self._iterate(s.iter):
                     self._bind(s.target, v)
+                    self.steps += 1
+                    if self.steps > self.max_steps:
+                        raise AnalysisError("tabulation: step bound exceeded in for loop")
                     try:
                         self.run(s.body)
                     except _Continue:
